@@ -6,8 +6,11 @@ PROP = dict(
                    "position) + recording save handler + tree snapshot around mpt_parse_node"),
         level_text=("Monitored executions of the real parser: 240k (quick) / 3M (thorough) generated documents (grammar-directed for the "
                     "active format, mutated, or random bytes; names/values across 255 and 65535 bytes; nesting to depth 60) x format "
-                    "strings (the five ctest ones, layout::file_format, further delimiter sets of the four families, PRNG-built) x name "
-                    "flag sets, driven through mpt_parse_config, the example's direct loop and mpt_parse_node into a populated root "
+                    "descriptions (the five ctest ones, layout::file_format, further delimiter sets of the four families, PRNG-built with "
+                    "comment / escape lists of 0..5 / 0..4 characters, every length 0..8; always handed over in an exact-size heap block; "
+                    "the fields mpt_parse_format fills are compared with the documented layout and defaults) x name "
+                    "flag sets, driven through mpt_parse_config, the example's direct loop, mpt_parse_node into a populated root and "
+                    "mpt_node_parse (stdio memory stream, description and name limits as strings) "
                     "(fresh and re-used parser context); 60k / 600k of the same cases through the C++ config_parser::set_format / "
                     "parser::read with one parser object used for several reads, and through mpt_parse_config with a handler that keeps "
                     "mpt::path copies (shared buffer) of 2/5 of the events and re-verifies all of them at every later event and after "
@@ -25,14 +28,19 @@ PROP = dict(
                            "events:section": 100000, "events:sectend": 50000, "events:option+data": 200000,
                            "state:depth>=3": 5000, "doc:with-long-token": 15000,
                            "fault:getc-error-delivered": 15000, "fault:save-refused": 5000,
-                           "state:merged-into-existing": 30000, "state:flat-section-open-at-eof": 5000}),
+                           "state:merged-into-existing": 30000, "state:flat-section-open-at-eof": 5000,
+                           "format:length-0": 3000, "format:length-1": 3000, "format:length-2": 3000, "format:length-3": 3000, "format:length-4": 3000, "format:length-5": 3000, "format:length-6": 3000, "format:length-7": 3000, "format:length-8": 3000,
+                           "format:length>8": 30000, "monitor:format-fields-checked": 200000, "monitor:format-lists-checked": 100000,
+                           "mpt_node_parse": 40000, "monitor:node_parse-snapshot-nonempty": 15000, "outcome:node_parse-accepted": 10000}),
               dict(name="c08_cxx", memcheck=500, src=["c08_cxx.cpp", "c08_gen.c", "c08_rec.c"], libs=["mpt++", "mptio", "mptplot", "mptcore"], batch=256, lsan=True,
                    floors={"parser::read": 60000, "config_parser::set_format": 60000, "set_format:refused": 200,
                            "outcome:accepted": 15000, "outcome:rejected": 25000,
                            "monitor:snapshot-compared-nonempty": 15000, "monitor:result-nodes-read": 50000,
                            "mpt_parse_config": 50000, "events:path-retained": 40000, "monitor:retained-path-verifications": 250000,
                            "retained:section": 8000, "retained:sectend": 4000, "retained:option": 15000, "retained:data": 5000,
-                           "state:parse-with-2+-retained-paths": 8000, "monitor:nesting-verdicts": 12000})],
+                           "state:parse-with-2+-retained-paths": 8000, "monitor:nesting-verdicts": 12000,
+                           "format:length-0": 700, "format:length-1": 700, "format:length-2": 700, "format:length-3": 700, "format:length-4": 700, "format:length-5": 700, "format:length-6": 700, "format:length-7": 700, "format:length-8": 700,
+                           "monitor:format-fields-checked": 50000})],
         rule=("case = (format string, section/option name flag sets, document bytes, getc error position or none, index of a refused "
               "save event or none, drivers run); non-trivial = mpt_parse_config delivered at least two events for the document, or "
               "rejected it after at least 8 getc calls (C++ leg: a read made at least 8 getc calls); distinct = 64-bit hash of "
@@ -45,6 +53,9 @@ PROP = dict(
             "flat families (' ' separated, 'x' with identical start/end character) leave the last section open at end of input",
             "whether a getc error (-1) must make the parse fail is not asserted (counted as outcome:input-error-not-reported)",
             "merge result of a successful mpt_parse_node into a populated root is only walked, not compared",
+            "format description: [0] section start, [1] family, [2] section end, [3] option start, [4] assign, [5] option end (blank = "
+            "none), [6..] up to 4 comment characters, blanks, up to 3 escape characters; parts the description is too short for keep "
+            "MPT_PARSER_FORMAT_INIT; longer lists are not asserted",
             "a parser context / mpt::parser object may be used for a further parse after a failed one (mpt::layout does)",
             "a path handler may keep a copy of the event path (mpt::path copy constructor, shares the character buffer); path bytes "
             "and the value bytes behind them must stay what the handler saw until the copy is released"],
